@@ -3,3 +3,4 @@ import Flodym.Np.Index
 import Flodym.Dims
 import Flodym.Array
 import Flodym.SubArray
+import Flodym.Stocks
